@@ -57,8 +57,8 @@ PROPS = {
     "C11": P(["lifecycle", "paystate"],
              "Proof of the lower bound (Verus): a temporary_trampoline_failure produced with no attempt and no policy rejection implies now >= wait_started + mpp_timeout; every sleep is at most one mpp_timeout; timer/zero-time branches return without add_payment_attempt/pay; readiness is signalled only when the amounts actually received cover amount + fee (unit paystate), so an incomplete set never starts a payment. The upper bound is not applicable (timer/scheduler latency).",
              LIFE_NOTE + " NOT APPLICABLE clause: the upper bound on the failure time.", assumptions=A_WORLD),
-    "C12": dict(P(["fee", "handle", "handle_slices"],
-             "Proof (Verus, unbounded): fee_sufficient as extracted from src/messages.rs satisfies the exact integer predicate of the statement for all u64 x u64 x u32 x u32 outside the region of known finding F-C12-a, never answers true when the exact predicate is false anywhere, and has no overflow/panic. One proof covers checked and wrapping builds because no overflow occurs.",
+    "C12": dict(P(["fee", "handle", "handle_slices", "paystate", "lifecycle"],
+             "Proof (Verus, unbounded): fee_sufficient as extracted from src/messages.rs satisfies the exact integer predicate of the statement for all u64 x u64 x u32 x u32 outside the region of known finding F-C12-a, never answers true when the exact predicate is false anywhere, and has no overflow/panic. One proof covers checked and wrapping builds because no overflow occurs. Third clause: the gate of handle_htlc requests the policy-carrying failure for a too-low declared total / relative expiry (unit handle_slices), PaymentState::fail keeps the first requested failure (unit paystate), and payment_lifecycle answers the set with exactly the failure it took out of the fail channel (unit lifecycle, ghost fail_received).",
              "Trusted: " + TB_COMMON + " vstd specs of checked_mul/checked_add. Known finding F-C12-a (amount*ppm >= 2^64 answers false) is excluded by region and reported as KNOWN-FINDING.",
              assumptions=[]),
         kani=[
